@@ -78,6 +78,21 @@ pub fn obs_impl(r: &Rope) -> String {
   let slices: Vec<String> = (0..len + 2).map(|a| (0..len + 2).map(|e| match catch(|| r.get_byte_slice(a..e)) { Ok(Some(x)) => hx(x.to_string().as_bytes()), Ok(None) => "-".into(), Err(m) => if m.contains("unsafe precondition") { "U".into() } else { "!".into() } }).collect::<Vec<_>>().join(",")).collect();
   let eqstr = match catch(|| *r == text.as_str() && *r == *text.as_str()) { Ok(x) => b(x).to_string(), Err(_) => "panic".into() };
   if r.to_bytes().as_ref() != text.as_bytes() { return "to_bytes-differs".into() }
+  // the other `RangeBounds` forms and the panicking accessors have to agree with the half-open form (C16 lists byte/get_byte and byte_slice)
+  let sl = |x: Option<Rope>| x.map(|y| y.to_string());
+  for a in 0..len + 2 {
+    if catch(|| sl(r.get_byte_slice(a..))).ok() != catch(|| sl(r.get_byte_slice(a..len))).ok() { return format!("range-from-differs {a}") }
+    if catch(|| sl(r.get_byte_slice(..a))).ok() != catch(|| sl(r.get_byte_slice(0..a))).ok() { return format!("range-to-differs {a}") }
+    if catch(|| sl(r.get_byte_slice(..=a))).ok() != catch(|| sl(r.get_byte_slice(0..a + 1))).ok() { return format!("range-to-inclusive-differs {a}") }
+    for e in a..len + 1 { if catch(|| sl(r.get_byte_slice(a..=e))).ok() != catch(|| sl(r.get_byte_slice(a..e + 1))).ok() { return format!("range-inclusive-differs {a} {e}") } }
+    if a < len {
+      if catch(|| r.byte(a)).ok() != catch(|| r.get_byte(a)).ok().flatten() { return format!("byte-differs {a}") }
+      for e in a..len + 1 {
+        if let Ok(Some(x)) = catch(|| r.get_byte_slice(a..e)) { if catch(|| r.byte_slice(a..e).to_string()).ok() != Some(x.to_string()) { return format!("byte_slice-differs {a} {e}") } }
+      }
+    }
+  }
+  if catch(|| sl(r.get_byte_slice(..))).ok() != Some(Some(text.clone())) { return "range-full-differs".into() }
   format!("len {len} empty {} text {} bytes {} ci {} lines {}{} endsnl {} endsa {} eqstr {eqstr} slices {}", b(r.is_empty()), hx(text.as_bytes()), bytes.join(" "), ci.join(","), lines.len(),
     lines.iter().map(|l| format!(" {l}")).collect::<String>(), b(r.ends_with('\n')), b(r.ends_with('a')), slices.join(" "))
 }
